@@ -136,16 +136,21 @@ def r15_2(run, model, mir, reach):
     run.floor("fields scanned for body types", n, 30)
 
 
-def _eq_tags(run, rel, n):
+def _eq_tags(run, rel, n, self_ty=None):
     l = S.norm_ws(run.facts.text(rel, n["left"]["sp"]))
     r = S.norm_ws(run.facts.text(rel, n["right"]["sp"]))
     pair = {l, r}
     both = l + " " + r
     tags = set()
+    def owner(x):
+        # whose header field is compared: the embedded interface's, or the unit's own (`self.` in a method of that type, a local at the site)
+        return "InterfaceUnit" if "interface." in x else (self_ty or "?")
     if "FORMAT_VERSION" in both and any(x.endswith("format_version") for x in pair):
         tags.add("format_version==FORMAT_VERSION")
+        tags |= {"format_version@" + owner(x) for x in pair if x.endswith("format_version")}
     if "COMPILER_ABI" in both and any(x.endswith("compiler_abi") for x in pair):
         tags.add("compiler_abi==COMPILER_ABI")
+        tags |= {"compiler_abi@" + owner(x) for x in pair if x.endswith("compiler_abi")}
     if any(x.endswith("interface_hash") for x in pair) and "compute_hash()" in both:
         tags.add("interface_hash==compute_hash()")
     if any(x.endswith(".package") or x == "package" for x in pair) and "interface.package" in both:
@@ -166,9 +171,9 @@ def facts(run, model, rel, e, self_ty, depth, seen):
         return f_, t
     if k == "Binary":
         if e["op"] == "==":
-            return _eq_tags(run, rel, e), set()
+            return _eq_tags(run, rel, e, self_ty), set()
         if e["op"] == "!=":
-            return set(), _eq_tags(run, rel, e)
+            return set(), _eq_tags(run, rel, e, self_ty)
         if e["op"] in ("&&", "||"):
             lt, lf = facts(run, model, rel, e["left"], self_ty, depth, seen)
             rt, rf = facts(run, model, rel, e["right"], self_ty, depth, seen)
@@ -289,6 +294,14 @@ def r15_3(run, model, mir, need=None, core_header=True):
                f"`{var}` ({ty}) from serde_json; rejecting tests establish {sorted(tags) or 'nothing'}" + (f"; missing: {missing}" if missing else ""),
                witness="an artifact written by another format version / ABI (or with an inconsistent hash) is accepted and linked")
         if ty == "CoreUnit" and core_header:
+            # the core file has a header of its own (format_version, compiler_abi) beside the one of the interface embedded in it: a test
+            # that only looks at the embedded copy lets a core stamped by another compiler through
+            own = {"format_version@CoreUnit", "compiler_abi@CoreUnit"}
+            miss0 = sorted(own - tags)
+            run.ob("R15.3", key + "|the core's own header versions are tested", not miss0, site(rel, [c["line"]]),
+                   "format_version and compiler_abi of the CoreUnit itself are compared with the compiler's" if not miss0 else
+                   f"only the embedded interface's header is compared; missing: {miss0}",
+                   witness="Lib.core with its outer \"format_version\" edited to 2 (the embedded interface intact) is accepted by read_core and linked")
             extra = {"package==interface.package", "deps==interface.deps"}
             miss2 = sorted(extra - tags)
             run.ob("R15.3", key + "|core header agrees with its hashed interface", not miss2, site(rel, [c["line"]]),
@@ -350,6 +363,29 @@ def r15_4(run, model):
                             outer_ok = True
         if not outer_ok:
             detail = f"`{dep_iter}` is not iterated for every linked unit"
+            continue
+        # ... and that outer loop ranges over *all* linked units: its iterable (a named list is followed to its initialiser) walks the
+        # collection of units (keys / values / iter of the map built from the cores, or the cores themselves), it is not a hand-picked list
+        whole = False
+        for names, it, node in binders[dep_level + 1:]:
+            src = node["iter"] if node["k"] == "For" else None
+            hops = 0
+            while src is not None and src["k"] == "Path" and len(src["segs"]) == 1 and hops < 3:
+                inits = [l["init"] for l in S.find(f.body, "Local") if src["segs"][0] in S.pat_bindings(l["pat"]) and l.get("init") is not None]
+                if len(inits) != 1:
+                    break
+                src = inits[0]
+                hops += 1
+            if src is None:
+                whole = True      # an iterator chain over the units (closure form): the chain text was matched above
+                continue
+            picked = any(x["k"] in ("Array", "Tuple") or (x["k"] == "Macro" and x.get("name") == "vec") for x in S.walk(src))
+            walks = any(c["k"] == "MethodCall" and c["method"] in ("keys", "values", "iter", "into_iter", "values_mut", "iter_mut", "into_values", "into_keys")
+                        for c in S.walk(src)) or (src["k"] in ("Path", "Ref") and not picked)
+            if walks and not picked:
+                whole = True
+        if not whole:
+            detail = "the loop around the pins ranges over a hand-picked list of units, not over every linked unit: the pins of the others are never compared"
             continue
         # the failing branch returns Err
         iff = next((a for a in par.ancestors(n) if a["k"] == "If"), None)
